@@ -555,3 +555,17 @@ package main
 //@   calls io.ReadFull#1: set rerr = $r1
 //@   ensures rerr == io.EOF || rerr == io.ErrUnexpectedEOF || rerr == nil ==> err == nil
 //@   ensures rerr != io.EOF && rerr != io.ErrUnexpectedEOF ==> err == rerr
+
+// The pull worker (replication between servers, on keep-balance's request):
+// what is written is everything that was read from the source - read to the
+// end without error, as many bytes as the source announced - under the
+// locator that was asked for (the write itself goes through Put / PutBlock).
+//@ func handler.pullItemAndProcess property C01,C02 safety -bounds,-nil
+//@   ghost rerr error = nil
+//@   ghost clen int64 = 0
+//@   ghost rdone bool = false
+//@   calls GetContent#1: set clen = $r1
+//@   calls ioutil.ReadAll#1: requires $0 == iface(reader)
+//@   calls ioutil.ReadAll#1: set rerr = $r1
+//@   calls ioutil.ReadAll#1: set rdone = true
+//@   calls writePulledBlock#1: requires rdone && rerr == nil && $2 == readContent && int64(len(readContent)) == clen && $3 == pullRequest.Locator
